@@ -28,6 +28,15 @@ pub fn s1_chain() -> Scenario
     }
 }
 
+/// S1 with three values per leaf (thorough tier)
+pub fn s1_chain_xyz() -> Scenario
+{
+    let mut sc = s1_chain();
+    sc.name = "S1-chain-xyz".into();
+    sc.edits = vec![(s("s1"), xyz()), (s("s2"), xyz())];
+    sc
+}
+
 /// S2: diamond; l and r are byte-identical whenever u is empty
 pub fn s2_diamond() -> Scenario
 {
@@ -363,7 +372,7 @@ pub fn by_name(name: &str) -> Option<Scenario>
 
 pub fn all_scenarios() -> Vec<Scenario>
 {
-    let mut v = vec![s1_chain(), s2_diamond(), s3_multi(), s3_c18(), s4_twins(), s4_c18(), s5_variants(), s6_exec(), s8_failures(), s9_scope(), s10_bundle(), s11_three(), s12_multiline_failure(), s13_binary()];
+    let mut v = vec![s1_chain(), s1_chain_xyz(), s2_diamond(), s3_multi(), s3_c18(), s4_twins(), s4_c18(), s5_variants(), s6_exec(), s8_failures(), s9_scope(), s10_bundle(), s11_three(), s12_multiline_failure(), s13_binary()];
     for m in 0..4 { v.push(s7_undeclared(m)); }
     for m in 0..8 { v.push(s7_undeclared3(m)); }
     v
